@@ -288,7 +288,17 @@ def check(cls, case, rec):
         rec.require("eigenvalues-positive", bool(lam.min() > 0), float(lam.min()))
     # extracted mode shapes
     n_mode = case["seed"] % k
+    # the field may carry any values when a mode is extracted (e.g. the result of a previous static step): they do not enter
+    src_field = xkw.get("x0", items[0].field)
+    saved = [np.array(f_.values) for f_ in src_field.fields]
+    if case["seed"] % 3 != 1:
+        r_ = np.random.default_rng(case["seed"] + 5)
+        for f_ in src_field.fields:
+            f_.values[...] = r_.uniform(-0.3, 0.3, f_.values.shape)
+        rec.label("extract-from-a-field-with-non-zero-values")
     field, freq = job.extract(n=n_mode, inplace=False, **xkw)
+    for f_, v_ in zip(src_field.fields, saved):
+        f_.values[...] = v_
     vals = np.concatenate([f.values.ravel() for f in field.fields])
     rec.close("mode-vanishes-on-prescribed-unknowns", float(np.abs(vals[dof0]).max()) if len(dof0) else 0.0, 0.0)
     rec.close("mode=eigenvector-on-free-unknowns", float(np.abs(vals[dof1] - V[:, n_mode]).max()), 0.0)
